@@ -370,6 +370,10 @@ def setup_py(ctl):
         return [1]
     ctl.peek = peek
     f = make_f(ctl)
+    tags = getattr(ctl, "tags", None)
+    if tags:
+        return (lambda: ffi.init_once(f, TAGVAL if tags[ctl.me()] == 0 else "c26-tag-%d" % tags[ctl.me()])), \
+               (lambda: None)
     return (lambda: ffi.init_once(f, TAGVAL)), (lambda: None)
 
 
@@ -625,6 +629,7 @@ def run_explore(n, case, timeout):
     caller can enumerate the implementation's own schedule tree (stateless search).  A thread whose acquire
     just failed is not choosable again until some thread has released a lock."""
     ctl = Ctl(n, timeout)
+    ctl.tags = case.get("tags")
     call, probe = setup_py(ctl)
     started = threading.Semaphore(0)
     threads = [threading.Thread(target=thread_main, args=(ctl, t, call, started), daemon=True) for t in range(n)]
@@ -695,7 +700,7 @@ def run_explore(n, case, timeout):
                 outcomes=[finished.get(t) for t in range(n)], probe=None, unfinished=unfinished)
 
 
-def explore_tree(n, limit, timeout, seed):
+def explore_tree(n, limit, timeout, seed, tags=None):
     """stateless depth-first search over the implementation's own schedule tree (see run_explore)"""
     import hashlib
     import random
@@ -705,9 +710,14 @@ def explore_tree(n, limit, timeout, seed):
     timeouts = 0
     while todo and runs < limit and len(bad) < 3 and timeouts < 2:
         prefix = todo.pop(rng.randrange(len(todo)) if rng is not None else -1)
-        r = run_explore(n, dict(prefix=prefix), timeout)
+        r = run_explore(n, dict(prefix=prefix, tags=tags), timeout)
         runs += 1
-        b = predicates(r, n)
+        if tags:
+            b = []
+            for tg in sorted(set(tags)):      # the property, separately for the callers of each tag
+                b += predicates(r, n, [t for t in range(n) if tags[t] == tg])
+        else:
+            b = predicates(r, n)
         if r["status"] in ("timeout", "stuck"):
             timeouts += r["status"] == "timeout"
             b.append("no call can make progress although no f is running (%s; threads %r unfinished): %s"
@@ -724,8 +734,12 @@ def explore_tree(n, limit, timeout, seed):
     return dict(runs=runs, exhausted=not todo, bad=bad, nontrivial=nontrivial)
 
 
-def predicates(res, n):
-    """the property, decided on the implementation's own events (independent of the model)"""
+def predicates(res, n, threads=None):
+    """the property, decided on the implementation's own events (independent of the model);
+    `threads`: only the callers of one tag"""
+    if threads is not None:
+        res = dict(res, events=[e for e in res["events"] if e[0] in threads], probe=None,
+                   outcomes=[o if t in threads else None for t, o in enumerate(res["outcomes"])])
     bad = []
     inside = None
     completed = []          # (t, r)
@@ -782,7 +796,8 @@ def main(payload):
     timeouts = 0
     if payload.get("explore_tree"):
         e = payload["explore_tree"]
-        return dict(results=[], tree=explore_tree(e["n"], e["limit"], payload.get("timeout", 30), e.get("seed")))
+        return dict(results=[], tree=explore_tree(e["n"], e["limit"], payload.get("timeout", 30), e.get("seed"),
+                                                  e.get("tags")))
     for case in payload["cases"]:
         if timeouts >= 2:       # a deadlocking implementation: do not wait for every remaining case
             out.append(dict(status="skipped", detail="earlier cases timed out", sched=[], events=[],
